@@ -90,7 +90,8 @@ def point(draw, kinds=("jonswap", "jonswap", "pm", "swell_sea", "random", "empty
 
 
 @st.composite
-def sea_case(draw, max_points=8, nds=(16, 24, 36), kinds=None, steep=None, max_nf=30, min_nf=8, t0_choices=("zero",)):
+def sea_case(draw, max_points=8, nds=(16, 24, 36), kinds=None, steep=None, max_nf=30, min_nf=8, t0_choices=("zero",),
+             nonuniform_dirs=False):
     n = draw(st.integers(1, max_points))
     nf = draw(st.integers(min_nf, max_nf))
     nd = draw(st.sampled_from(list(nds)))
@@ -104,15 +105,21 @@ def sea_case(draw, max_points=8, nds=(16, 24, 36), kinds=None, steep=None, max_n
     for _ in range(n):
         c = draw(st.integers(0, 3))
         dep.append(float("inf") if c < 2 else draw(log_uniform(5.0, 500.0)))
-    return {"nf": nf, "nd": nd, "fkind": fk, "f0": f0, "fmax": draw(fl(0.5, 1.0)), "t0": t0, "points": pts, "depth": dep,
+    extra = {}
+    if nonuniform_dirs and draw(st.integers(0, 2)) == 0:
+        extra["dir_jitter"] = [draw(fl(-0.3, 0.3)) for _ in range(nd)]
+    return {**extra, "nf": nf, "nd": nd, "fkind": fk, "f0": f0, "fmax": draw(fl(0.5, 1.0)), "t0": t0, "points": pts, "depth": dep,
             "u10": [draw(fl(1.0, 40.0)) for _ in range(n)],
             "wdir": [draw(st.one_of(fl(0.0, 360.0), st.sampled_from([0.0, 90.0, 180.0, 270.0]))) for _ in range(n)]}
 
 
 def axes(c):
     f = freq_axis(c["fkind"], c["nf"], c["f0"], c.get("fmax"))
-    d = (c["t0"] + np.arange(c["nd"]) * 360.0 / c["nd"]) % 360.0
-    return f, d
+    d = c["t0"] + np.arange(c["nd"]) * 360.0 / c["nd"]
+    if c.get("dir_jitter"):
+        # non-uniform direction grid: every node moved by less than 0.3 of the nominal bin (order is kept)
+        d = d + np.array(c["dir_jitter"]) * 360.0 / c["nd"]
+    return f, d % 360.0
 
 
 def densities(c):
